@@ -329,6 +329,54 @@ def check_snapshot(run: Run, ctx, m, cls) -> None:
 
 
 
+def _skips_first_pass(h: FuncInfo, call: ast.Call) -> bool:
+    """the call sits in a loop under `if not FLAG:` (or in the else of `if FLAG:`), FLAG a local that is True when the
+    loop is entered, set to False in the loop body on every pass (at body level, after the test) and written nowhere
+    else: the statement runs on every pass but the first"""
+    from ..model import ancestors as _anc
+    from ..model import parent as _par
+
+    loop = next((a for a in _anc(call) if isinstance(a, ast.For)), None)
+    if loop is None:
+        return False
+    guard = None
+    child = call
+    for a in _anc(call):
+        if a is loop:
+            break
+        if isinstance(a, ast.If):
+            t = a.test
+            in_body = any(child is x or any(child is y for y in ast.walk(x)) for x in a.body)
+            if isinstance(t, ast.UnaryOp) and isinstance(t.op, ast.Not) and isinstance(t.operand, ast.Name) and in_body:
+                guard = (a, t.operand.id)
+            elif isinstance(t, ast.Name) and not in_body:
+                guard = (a, t.id)
+            else:
+                return False
+        child = a
+    if guard is None or guard[0] not in loop.body:
+        return False
+    iff, flag = guard
+    stores = [n for n in ast.walk(h.node) if isinstance(n, ast.Name) and n.id == flag and isinstance(n.ctx, (ast.Store, ast.Del))]
+    if len(stores) != 2:
+        return False
+    asg = [_par(n) for n in stores]
+    if not all(isinstance(a, ast.Assign) and len(a.targets) == 1 and isinstance(a.value, ast.Constant) and isinstance(a.value.value, bool) for a in asg):
+        return False
+    init = [a for a in asg if a.value.value is True and not any(a is y for y in ast.walk(loop))]
+    reset = [a for a in asg if a.value.value is False and a in loop.body and loop.body.index(a) > loop.body.index(iff)]
+    if len(init) != 1 or len(reset) != 1:
+        return False
+    # nothing between the initialisation and the loop may skip the loop's first pass semantics: the init statement
+    # precedes the loop in the same block
+    blk = getattr(_par(loop), "body", None)
+    if not isinstance(blk, list) or init[0] not in blk or loop not in blk or blk.index(init[0]) > blk.index(loop):
+        blk = getattr(_par(loop), "orelse", None)
+        if not isinstance(blk, list) or init[0] not in blk or loop not in blk or blk.index(init[0]) > blk.index(loop):
+            return False
+    return not any(isinstance(x, (ast.Continue,)) for x in ast.walk(loop))
+
+
 def check_comprehension_shadow(run: Run, ctx: TermCtx, m, cls: ClassInfo, rule: str) -> None:
     """A substituting transformer (one whose visit_Name can replace a name) must treat the loop variables of the four
     comprehension forms as binders: a frame holding every Name of every generator target is pushed, the element
@@ -424,6 +472,8 @@ def check_comprehension_shadow(run: Run, ctx: TermCtx, m, cls: ClassInfo, rule: 
                     why_i = "the other iterables are not visited exactly for index > 0 of enumerate(generators)"
                 elif r_ == ("elem", ("slice", gens_t, 1, None)):
                     ok_i = True
+                elif r_ == ("elem", gens_t) and rest[0].owner is h and _skips_first_pass(h, rest[0].call):
+                    ok_i = True  # for g in generators: if not is_first: g.iter = visit(g.iter); is_first = False
                 else:
                     ok_i = False
                     why_i = f"the other iterables are taken from {show(r_)[:80]}: not generators[1:] / enumerate(generators) from 0"
